@@ -152,6 +152,25 @@ var c18Ops = []c18op{
 		err := q.Unmarshal(B)
 		return fmt.Sprintf("%s|%v", ref.Dump(q), err), q
 	}},
+	{name: "DecodeThenMarshal(B)", ro: true, run: func(_ rtcp.Packet, typ string, B []byte) (string, interface{}) { return decodeThenMarshal(typ, B, 0) }},
+	{name: "DecodeThenMarshal(B+1)", ro: true, run: func(_ rtcp.Packet, typ string, B []byte) (string, interface{}) { return decodeThenMarshal(typ, B, 1) }},
+	{name: "DecodeThenMarshal(B+3)", ro: true, run: func(_ rtcp.Packet, typ string, B []byte) (string, interface{}) { return decodeThenMarshal(typ, B, 3) }},
+}
+
+// decodeThenMarshal decodes the buffer (optionally extended by a few octets of
+// its own spare capacity, giving an unaligned length) with the type's own
+// decoder and marshals the decoded packet, which may alias the buffer.
+func decodeThenMarshal(typ string, B []byte, ext int) (string, interface{}) {
+	in := B
+	if ext > 0 && cap(B) >= len(B)+ext {
+		in = B[:len(B)+ext]
+	}
+	q := EntryByName("own:" + typ).New()
+	if err := q.Unmarshal(in); err != nil {
+		return "decode: " + err.Error(), nil
+	}
+	b, err := q.Marshal()
+	return fmt.Sprintf("%x|%v", b, err), b
 }
 
 func globalsSnapshot() string {
@@ -234,33 +253,48 @@ func c18Histories(c *bx.Ctx) {
 			}
 		}
 		xr := hasXR(o.mk())
+		// every slice of the packet gets spare capacity filled with a sentinel, and the input
+		// buffer sits inside a larger arena, so writes past a slice's length are observable
+		mkp := func() rtcp.Packet { p := o.mk(); ref.PadCapacity(p, 3); return p }
+		mkB := func() (arena, B []byte) {
+			arena = make([]byte, len(B0)+16)
+			copy(arena, B0)
+			for i := len(B0); i < len(arena); i++ {
+				arena[i] = 0xEE
+			}
+			return arena, arena[:len(B0):len(arena)]
+		}
+		arena0, _ := mkB()
 		// snapshots and baseline results in the initial and (XR) header-filled state
-		snapInit := ref.Dump(o.mk())
-		filled := o.mk()
+		snapInit := ref.DumpCap(mkp())
+		filled := mkp()
 		_, _ = filled.Marshal()
-		snapFilled := ref.Dump(filled)
-		refilled := ref.Clone(filled).(rtcp.Packet)
+		snapFilled := ref.DumpCap(filled)
+		refilled := mkp()
 		_, _ = refilled.Marshal()
-		if ref.Dump(refilled) != snapFilled && c.Shard == 0 {
-			c.Report(keyJoin("C18/history", o.typ, "header-fill-not-idempotent"), "a second Marshal changes the packet again", bx.Replay{Entry: "Marshal;Marshal", Value: o.typ + "{" + o.shape + "}", Expected: snapFilled, Observed: ref.Dump(refilled)})
+		_, _ = refilled.Marshal()
+		if ref.DumpCap(refilled) != snapFilled && c.Shard == 0 {
+			c.Report(keyJoin("C18/history", o.typ, "header-fill-not-idempotent"), "a second Marshal changes the packet again", bx.Replay{Entry: "Marshal;Marshal", Value: o.typ + "{" + o.shape + "}", Expected: snapFilled, Observed: ref.DumpCap(refilled)})
 		}
 		if !xr && snapFilled != snapInit && c.Shard == 0 {
 			c.Report(keyJoin("C18/history", o.typ, "Marshal-mutates-packet"), "Marshal modifies the packet", bx.Replay{Entry: "Marshal", Value: o.typ + "{" + o.shape + "}", Expected: snapInit, Observed: snapFilled})
 		}
 		base := map[string][2]string{}
 		for _, op := range ops {
-			r0, _ := op.run(o.mk(), o.typ, append([]byte{}, B0...))
-			f := o.mk()
+			_, b1 := mkB()
+			r0, _ := op.run(mkp(), o.typ, b1)
+			f := mkp()
 			_, _ = f.Marshal()
-			r1, _ := op.run(f, o.typ, append([]byte{}, B0...))
+			_, b2 := mkB()
+			r1, _ := op.run(f, o.typ, b2)
 			base[op.name] = [2]string{r0, r1}
 		}
 		c.T(2 * len(ops))
 		idx := make([]int, 0, maxLen)
 		var run func()
 		run = func() {
-			p := o.mk()
-			B := append([]byte{}, B0...)
+			p := mkp()
+			arena, B := mkB()
 			var keeps []kept
 			marshalled := false
 			names := ""
@@ -289,7 +323,7 @@ func c18Histories(c *bx.Ctx) {
 					c.Report(keyJoin("C18/history", o.typ, op.name, "result-depends-on-history"), "an operation returns a different result depending on what was called before", rp(step, want, res))
 					return
 				}
-				snap := ref.Dump(p)
+				snap := ref.DumpCap(p)
 				wantSnap := snapInit
 				if st == 1 {
 					wantSnap = snapFilled
@@ -298,8 +332,8 @@ func c18Histories(c *bx.Ctx) {
 					c.Report(keyJoin("C18/history", o.typ, op.name, "packet-modified"), op.name+" modifies the packet", rp(step, wantSnap, snap))
 					return
 				}
-				if !bytes.Equal(B, B0) {
-					c.Report(keyJoin("C18/history", o.typ, op.name, "input-buffer-modified"), op.name+" modifies the input buffer", rp(step, bx.Short(B0), bx.Short(B)))
+				if !bytes.Equal(arena, arena0) {
+					c.Report(keyJoin("C18/history", o.typ, op.name, "input-buffer-modified"), op.name+" modifies the input buffer or the memory following it", rp(step, bx.Short(arena0), bx.Short(arena)))
 					return
 				}
 				for _, k := range keeps {
@@ -441,13 +475,14 @@ func c18Scenarios(thorough bool) []c18scenario {
 			o, t, pair := o, t, pair
 			out = append(out, c18scenario{name: fmt.Sprintf("B:%s shared %s||%s", t, pair[0], pair[1]), driver: "B-shared-packet", mk: func() ([]c18thread, func() string) {
 				p := o.mk()
+				ref.PadCapacity(p, 3)
 				if hasXR(p) {
 					_, _ = p.Marshal() // documented: XR Marshal fills block headers; share the packet after that
 				}
 				return []c18thread{
 					{pair[0], func() string { r, _ := a.run(p, t, nil); return r }},
 					{pair[1], func() string { r, _ := b.run(p, t, nil); return r }},
-				}, func() string { return ref.Dump(p) }
+				}, func() string { return ref.DumpCap(p) }
 			}})
 		}
 	}
